@@ -197,6 +197,8 @@ struct Scripted {
     w: Rc<World>,
     f: usize,
     mode: usize,
+    /// mode 5: the future has been polled before
+    polled: Cell<bool>,
 }
 
 /// readiness test of the scripted future: (ordering of the flag load, value that means "ready")
@@ -216,6 +218,15 @@ impl Future for Scripted {
     type Output = i128;
     fn poll(self: Pin<&mut Self>, cx: &mut Context<'_>) -> Poll<i128> {
         let w = &self.w;
+        if self.mode == 5 {
+            // a `yield_now`-shaped future: the first poll wakes itself through the borrowed waker (no clone exists)
+            // and returns Pending, every later poll is Ready
+            if self.polled.replace(true) {
+                return Poll::Ready(7);
+            }
+            cx.waker().wake_by_ref();
+            return Poll::Pending;
+        }
         let (ord, target) = poll_test(self.mode);
         if w.atomic_load_ord(self.f, ord) == target {
             return Poll::Ready(7);
@@ -252,7 +263,7 @@ impl Future for PollOnce {
 pub fn future_op(w: &Rc<World>, op: &Op) -> Ret {
     match op {
         Op::BlockOn(f, mode) => {
-            let fut = Scripted { w: w.clone(), f: *f, mode: *mode };
+            let fut = Scripted { w: w.clone(), f: *f, mode: *mode, polled: Cell::new(false) };
             let v = if *mode == 4 { loom::future::block_on(PollOnce(fut)) } else { loom::future::block_on(fut) };
             // what dropping the future would release
             if slot_mode(*mode) {
